@@ -1000,10 +1000,10 @@ mod v_iface_sixlowpan {
     }
 
     // ------------------------------------------------------------------ 5. reassembly
-    /// ghost datagram of the reassembly harness: fe80::iid(sll) -> fe80::iid(dll), UDP, 16 data octets: 64 octets,
-    /// sent as FRAG1 (compressed headers only: uncompressed 0..48), FRAGN offset 6 (48..56), FRAGN offset 7 (56..64);
-    /// all three frames are 13 octets long
-    const GD: usize = 64;
+    /// ghost datagram of the reassembly harness: fe80::iid(sll) -> fe80::iid(dll), UDP, 8 data octets: 56 octets,
+    /// sent as FRAG1 (compressed headers only: uncompressed 0..48) and FRAGN offset 6 (48..56);
+    /// both frames are 13 octets long (three fragments: 1.08 M steps, 11 min of symbolic execution, > 8 GB: measured)
+    const GD: usize = 56;
     #[derive(Clone, Copy)]
     struct GhostD {
         sll: [u8; 8],
@@ -1011,7 +1011,7 @@ mod v_iface_sixlowpan {
         sport: u16,
         dport: u16,
         ck: [u8; 2],
-        data: [u8; 16],
+        data: [u8; 8],
         tag: u16,
     }
 
@@ -1023,10 +1023,8 @@ mod v_iface_sixlowpan {
         let d = &g.data;
         if which == 0 {
             [0xc0 | sh, sl, th, tl, 0x7e, 0x33, 0xf0, (g.sport >> 8) as u8, g.sport as u8, (g.dport >> 8) as u8, g.dport as u8, g.ck[0], g.ck[1]]
-        } else if which == 1 {
-            [0xe0 | sh, sl, th, tl, offset, d[0], d[1], d[2], d[3], d[4], d[5], d[6], d[7]]
         } else {
-            [0xe0 | sh, sl, th, tl, offset, d[8], d[9], d[10], d[11], d[12], d[13], d[14], d[15]]
+            [0xe0 | sh, sl, th, tl, offset, d[0], d[1], d[2], d[3], d[4], d[5], d[6], d[7]]
         }
     }
 
@@ -1036,7 +1034,7 @@ mod v_iface_sixlowpan {
         match k {
             0 => 0x60,
             1 | 2 | 3 | 4 => 0,
-            5 => 24,
+            5 => 16,
             6 => 17,
             7 => 64,
             8 | 24 => 0xfe,
@@ -1049,7 +1047,7 @@ mod v_iface_sixlowpan {
             42 => (g.dport >> 8) as u8,
             43 => g.dport as u8,
             44 => 0,
-            45 => 24,
+            45 => 16,
             46 => g.ck[0],
             47 => g.ck[1],
             _ => g.data[k - 48],
@@ -1545,21 +1543,19 @@ mod v_iface_sixlowpan {
     }
 
     // ---- 5. reassembly
-    /// slot state = genuine fragments w1 then w2 (0 = FRAG1, 1 = FRAGN offset 6, 2 = FRAGN offset 7) already received;
-    /// step = a fragment with the layout of fragment `kind` and symbolic tag / datagram_size / offset; then the missing
-    /// fragment.  w1, w2, kind are concrete per harness (symbolic kinds: out of memory at 8 GB after 11 min, measured)
-    fn frag_rx_case(w1: u8, w2: u8, kind: u8) {
+    /// slot state = genuine fragment `first` (0 = FRAG1, 1 = the FRAGN at offset 6) already received; step = a fragment
+    /// with the layout of fragment `kind` and symbolic tag / datagram_size / offset; then the missing fragment.
+    /// `first` and `kind` are concrete per harness (symbolic kinds: out of memory at 8 GB after 11 min, measured)
+    fn frag_rx_case(first: u8, kind: u8) {
         let g = GhostD { sll: kani::any(), dll: kani::any(), sport: kani::any(), dport: kani::any(), ck: kani::any(), data: kani::any(), tag: kani::any() };
         kani::assume(g.dport != 0);
         let hw: [u8; 8] = g.dll;
         lowpan_env!(dev, iface, hw);
         let Interface { inner, fragments, .. } = &mut iface;
         let r802 = ieee(Some(Ieee802154Address::Extended(g.sll)), Some(Ieee802154Address::Extended(g.dll)));
-        let off = |w: u8| if w == 1 { 6u8 } else { 7u8 };
-        let w3 = 3 - w1 - w2;
-        let (d1, _, _) = rx_feed(inner, fragments, &r802, &frag_frame(&g, w1, GD as u8, g.tag, off(w1)));
-        let (d2, _, _) = rx_feed(inner, fragments, &r802, &frag_frame(&g, w2, GD as u8, g.tag, off(w2)));
-        assert!(!d1 && !d2, "prop:c20_incomplete_datagram_not_delivered");
+        let other = 1 - first;
+        let (d1, _, _) = rx_feed(inner, fragments, &r802, &frag_frame(&g, first, GD as u8, g.tag, 6));
+        assert!(!d1, "prop:c20_incomplete_datagram_not_delivered");
         // the step
         let tag: u16 = kani::any();
         // (datagram sizes above the 256-octet reassembly buffer are refused by `set_total_size`)
@@ -1568,14 +1564,14 @@ mod v_iface_sixlowpan {
         let offset: u8 = kani::any();
         let genuine = tag == g.tag && size == GD as u16;
         if genuine {
-            kani::assume(offset == off(kind));
+            kani::assume(offset == 6);
         } else if kind == 0 {
             // smaller FRAG1 sizes: finding of lowpan_frag_rx_free (subtraction overflow)
             kani::assume(size >= 48);
         }
         let (ds, ns, cs) = rx_feed(inner, fragments, &r802, &frag_frame(&g, kind, size8, tag, offset));
         if genuine {
-            assert!(ds == (kind == w3), "prop:c20_delivered_exactly_when_complete_in_any_order");
+            assert!(ds == (kind == other), "prop:c20_delivered_exactly_when_complete_in_any_order");
             if ds {
                 assert_is_ghost(&g, ns, &cs);
             }
@@ -1584,52 +1580,40 @@ mod v_iface_sixlowpan {
             assert!(kind == 0 && ns == size as usize, "prop:c20_foreign_fragment_delivers_nothing_of_the_datagram_in_progress");
         }
         // the slot of the datagram in progress is intact: the missing fragment completes it
-        if !(genuine && kind == w3) {
-            let (df, nf, cf) = rx_feed(inner, fragments, &r802, &frag_frame(&g, w3, GD as u8, g.tag, off(w3)));
+        if !(genuine && kind == other) {
+            let (df, nf, cf) = rx_feed(inner, fragments, &r802, &frag_frame(&g, other, GD as u8, g.tag, 6));
             assert!(df, "prop:c20_foreign_or_duplicate_fragment_does_not_disturb_reassembly");
             if df {
                 assert_is_ghost(&g, nf, &cf);
             }
         }
-        kani::cover!(genuine, "genuine fragment (missing one or duplicate)");
+        kani::cover!(genuine, "genuine fragment (the missing one or a duplicate)");
         kani::cover!(!genuine && tag == g.tag, "same tag, other datagram size");
         kani::cover!(!genuine && size == GD as u16, "same size, foreign tag");
     }
 
-    // @harness props=C20,C03 cfg=KL tier=q to=1800 mem=8 unwind=20 opts=nomem,fs256 covers=3 funcs=InterfaceInner::process_sixlowpan_fragment;PacketAssemblerSet::get;PacketAssembler::set_total_size;PacketAssembler::add_with;PacketAssembler::add;PacketAssembler::assemble;InterfaceInner::sixlowpan_to_ipv6 bounds=ghost_datagram_of_64_octets_(fe80::IID_addresses,_UDP,_16_data_octets,_all_values_symbolic)_sent_as_FRAG1_+_2_FRAGN_(13-octet_frames);_both_FRAGN_received_first;_step_=_a_FRAG1_(the_late_genuine_one_or_foreign)_with_symbolic_tag,_datagram_size_<256_(>=48_for_a_foreign_FRAG1)_and_offset;_then_the_missing_fragment;_2_reassembly_slots_of_256_octets
+    // @harness props=C20,C03 cfg=KL tier=q to=1800 mem=8 unwind=20 opts=nomem covers=3 funcs=InterfaceInner::process_sixlowpan_fragment;PacketAssemblerSet::get;PacketAssembler::set_total_size;PacketAssembler::add_with;PacketAssembler::add;PacketAssembler::assemble;InterfaceInner::sixlowpan_to_ipv6 bounds=ghost_datagram_of_56_octets_(fe80::IID_addresses,_UDP,_8_data_octets,_all_values_symbolic)_sent_as_FRAG1_+_1_FRAGN_(13-octet_frames);_the_FRAGN_received_first;_step_=_a_FRAG1_(the_late_genuine_one_or_a_foreign_one)_with_symbolic_tag,_datagram_size_<256_(>=48_for_a_foreign_FRAG1)_and_offset;_then_the_missing_fragment;_2_reassembly_slots_of_256_octets
     #[kani::proof]
-    pub(crate) fn lowpan_frag_rx_step_12_0() {
-        frag_rx_case(1, 2, 0);
+    pub(crate) fn lowpan_frag_rx_step_1_0() {
+        frag_rx_case(1, 0);
     }
 
-    // @harness props=C20,C03 cfg=KL tier=q to=1800 mem=8 unwind=20 opts=nomem,fs256 covers=3 funcs=InterfaceInner::process_sixlowpan_fragment;PacketAssemblerSet::get;PacketAssembler::set_total_size;PacketAssembler::add_with;PacketAssembler::add;PacketAssembler::assemble;InterfaceInner::sixlowpan_to_ipv6 bounds=ghost_datagram_of_64_octets_(fe80::IID_addresses,_UDP,_16_data_octets,_all_values_symbolic)_sent_as_FRAG1_+_2_FRAGN_(13-octet_frames);_FRAG1_and_the_last_FRAGN_received;_step_=_a_FRAGN_(the_missing_middle_one_or_foreign)_with_symbolic_tag,_datagram_size_<256_(>=48_for_a_foreign_FRAG1)_and_offset;_then_the_missing_fragment;_2_reassembly_slots_of_256_octets
+    // @harness props=C20,C03 cfg=KL tier=q to=1800 mem=8 unwind=20 opts=nomem covers=3 funcs=InterfaceInner::process_sixlowpan_fragment;PacketAssemblerSet::get;PacketAssembler::set_total_size;PacketAssembler::add_with;PacketAssembler::add;PacketAssembler::assemble;InterfaceInner::sixlowpan_to_ipv6 bounds=ghost_datagram_of_56_octets_(fe80::IID_addresses,_UDP,_8_data_octets,_all_values_symbolic)_sent_as_FRAG1_+_1_FRAGN_(13-octet_frames);_FRAG1_received;_step_=_a_FRAGN_(the_genuine_one_or_a_foreign_one)_with_symbolic_tag,_datagram_size_<256_(>=48_for_a_foreign_FRAG1)_and_offset;_then_the_missing_fragment;_2_reassembly_slots_of_256_octets
     #[kani::proof]
-    pub(crate) fn lowpan_frag_rx_step_02_1() {
-        frag_rx_case(0, 2, 1);
+    pub(crate) fn lowpan_frag_rx_step_0_1() {
+        frag_rx_case(0, 1);
     }
 
-    // @harness props=C20,C03 cfg=KL tier=t to=1800 mem=8 unwind=20 opts=nomem,fs256 covers=3 funcs=InterfaceInner::process_sixlowpan_fragment;PacketAssemblerSet::get;PacketAssembler::set_total_size;PacketAssembler::add_with;PacketAssembler::add;PacketAssembler::assemble;InterfaceInner::sixlowpan_to_ipv6 bounds=ghost_datagram_of_64_octets_(fe80::IID_addresses,_UDP,_16_data_octets,_all_values_symbolic)_sent_as_FRAG1_+_2_FRAGN_(13-octet_frames);_FRAG1_and_first_FRAGN_received;_step_=_a_FRAGN_(duplicate_or_foreign)_with_symbolic_tag,_datagram_size_<256_(>=48_for_a_foreign_FRAG1)_and_offset;_then_the_missing_fragment;_2_reassembly_slots_of_256_octets
+    // @harness props=C20,C03 cfg=KL tier=t to=1800 mem=8 unwind=20 opts=nomem covers=3 funcs=InterfaceInner::process_sixlowpan_fragment;PacketAssemblerSet::get;PacketAssembler::set_total_size;PacketAssembler::add_with;PacketAssembler::add;PacketAssembler::assemble;InterfaceInner::sixlowpan_to_ipv6 bounds=ghost_datagram_of_56_octets_(fe80::IID_addresses,_UDP,_8_data_octets,_all_values_symbolic)_sent_as_FRAG1_+_1_FRAGN_(13-octet_frames);_FRAG1_received;_step_=_a_FRAG1_(duplicate_or_foreign)_with_symbolic_tag,_datagram_size_<256_(>=48_for_a_foreign_FRAG1)_and_offset;_then_the_missing_fragment;_2_reassembly_slots_of_256_octets
     #[kani::proof]
-    pub(crate) fn lowpan_frag_rx_step_01_1() {
-        frag_rx_case(0, 1, 1);
+    pub(crate) fn lowpan_frag_rx_step_0_0() {
+        frag_rx_case(0, 0);
     }
 
-    // @harness props=C20,C03 cfg=KL tier=t to=1800 mem=8 unwind=20 opts=nomem,fs256 covers=3 funcs=InterfaceInner::process_sixlowpan_fragment;PacketAssemblerSet::get;PacketAssembler::set_total_size;PacketAssembler::add_with;PacketAssembler::add;PacketAssembler::assemble;InterfaceInner::sixlowpan_to_ipv6 bounds=ghost_datagram_of_64_octets_(fe80::IID_addresses,_UDP,_16_data_octets,_all_values_symbolic)_sent_as_FRAG1_+_2_FRAGN_(13-octet_frames);_FRAGNs_in_reverse_order;_step_=_a_FRAGN_(duplicate_or_foreign)_with_symbolic_tag,_datagram_size_<256_(>=48_for_a_foreign_FRAG1)_and_offset;_then_the_missing_fragment;_2_reassembly_slots_of_256_octets
+    // @harness props=C20,C03 cfg=KL tier=t to=1800 mem=8 unwind=20 opts=nomem covers=3 funcs=InterfaceInner::process_sixlowpan_fragment;PacketAssemblerSet::get;PacketAssembler::set_total_size;PacketAssembler::add_with;PacketAssembler::add;PacketAssembler::assemble;InterfaceInner::sixlowpan_to_ipv6 bounds=ghost_datagram_of_56_octets_(fe80::IID_addresses,_UDP,_8_data_octets,_all_values_symbolic)_sent_as_FRAG1_+_1_FRAGN_(13-octet_frames);_the_FRAGN_received;_step_=_a_FRAGN_(duplicate_or_foreign)_with_symbolic_tag,_datagram_size_<256_(>=48_for_a_foreign_FRAG1)_and_offset;_then_the_missing_fragment;_2_reassembly_slots_of_256_octets
     #[kani::proof]
-    pub(crate) fn lowpan_frag_rx_step_21_2() {
-        frag_rx_case(2, 1, 2);
-    }
-
-    // @harness props=C20,C03 cfg=KL tier=t to=1800 mem=8 unwind=20 opts=nomem,fs256 covers=3 funcs=InterfaceInner::process_sixlowpan_fragment;PacketAssemblerSet::get;PacketAssembler::set_total_size;PacketAssembler::add_with;PacketAssembler::add;PacketAssembler::assemble;InterfaceInner::sixlowpan_to_ipv6 bounds=ghost_datagram_of_64_octets_(fe80::IID_addresses,_UDP,_16_data_octets,_all_values_symbolic)_sent_as_FRAG1_+_2_FRAGN_(13-octet_frames);_last_FRAGN_then_FRAG1;_step_=_a_FRAG1_(duplicate_or_foreign)_with_symbolic_tag,_datagram_size_<256_(>=48_for_a_foreign_FRAG1)_and_offset;_then_the_missing_fragment;_2_reassembly_slots_of_256_octets
-    #[kani::proof]
-    pub(crate) fn lowpan_frag_rx_step_20_0() {
-        frag_rx_case(2, 0, 0);
-    }
-
-    // @harness props=C20,C03 cfg=KL tier=t to=1800 mem=8 unwind=20 opts=nomem,fs256 covers=3 funcs=InterfaceInner::process_sixlowpan_fragment;PacketAssemblerSet::get;PacketAssembler::set_total_size;PacketAssembler::add_with;PacketAssembler::add;PacketAssembler::assemble;InterfaceInner::sixlowpan_to_ipv6 bounds=ghost_datagram_of_64_octets_(fe80::IID_addresses,_UDP,_16_data_octets,_all_values_symbolic)_sent_as_FRAG1_+_2_FRAGN_(13-octet_frames);_first_FRAGN_then_FRAG1;_step_=_a_FRAGN_(the_missing_last_one_or_foreign)_with_symbolic_tag,_datagram_size_<256_(>=48_for_a_foreign_FRAG1)_and_offset;_then_the_missing_fragment;_2_reassembly_slots_of_256_octets
-    #[kani::proof]
-    pub(crate) fn lowpan_frag_rx_step_10_2() {
-        frag_rx_case(1, 0, 2);
+    pub(crate) fn lowpan_frag_rx_step_1_1() {
+        frag_rx_case(1, 1);
     }
 
     // @harness props=C03,C20 cfg=KL tier=q to=1800 mem=8 unwind=12 opts=fs256 covers=2 funcs=InterfaceInner::process_sixlowpan_fragment;SixlowpanFragPacket::new_checked;SixlowpanFragPacket::get_key;PacketAssemblerSet::get;PacketAssembler::set_total_size;PacketAssembler::add_with;PacketAssembler::add;InterfaceInner::sixlowpan_to_ipv6 bounds=one_frame_of_<=15_octets_starting_with_a_FRAG1/FRAGN_dispatch:_datagram_size,_tag,_offset_arbitrary;_FRAG1_continues_with_IPHC_7e_33_+_<=9_arbitrary_octets,_FRAGN_with_<=10_arbitrary_octets;_link-layer_addresses_short_or_extended;_fresh_reassembly_buffers
